@@ -1,5 +1,5 @@
 (* C16 — variable listing; encodable iff no variables. *)
-From Secs Require Import Ast FloatProofs Fill Msg Api WireSpec WireLemmas WireValues WireEnc WireDec MsgProofs AstProofs.
+From Secs Require Import Ast FloatProofs Fill Msg Api WireSpec WireLemmas WireValues WireEnc WireDec MsgProofs AstProofs PrintProofs.
 Open Scope Z_scope.
 
 (* for every history of API calls: no name occurs twice anywhere in any item or message of the pool *)
@@ -28,7 +28,20 @@ Theorem C16_size : forall t,
 Proof. intro t. destruct t; reflexivity. Qed.
 Print Assumptions C16_size.
 
-(* C16_order_partial: "in the order in which the names appear in the printed
-   form" is decided by the Go-side monitor of suite C16 (an independent reader
-   of the printed text) and by the correspondence of String() and Variables();
-   the theorem over the token layout is stated with C04. *)
+(* the order: the printed form is the text of a printer that marks every
+   occurrence of a variable name (erasing the marks gives String(), whatever
+   strconv prints for floats), and the marked names, in order of appearance,
+   are exactly the list Variables() returns — an ellipsis being shown as "..." *)
+Theorem C16_printed_form : forall fl t level, render fl (print_item_at level t) = mrender fl (mprint level t).
+Proof. exact marks_erase. Qed.
+Print Assumptions C16_printed_form.
+
+Theorem C16_order : forall t level, is_item t -> wf_names t -> names (mprint level t) = map shown (vars t).
+Proof. exact marked_names_are_vars. Qed.
+Print Assumptions C16_order.
+
+(* the hypothesis is what the constructors establish *)
+Theorem C16_order_premise : forall k w args t n mn mx t',
+  (new_leaf k w args = Some t -> wf_names t) /\ (new_ascii_var n mn mx = Some t' -> wf_names t').
+Proof. intros. split; [apply new_leaf_wf|apply new_ascii_var_wf]. Qed.
+Print Assumptions C16_order_premise.
